@@ -351,6 +351,9 @@ pub fn c14(tier: &str) -> i32 {
     let cl_nr = Clauses { sched: true, model: true, invisible: true, ..Default::default() };
     let c = ecfg("MarketEnv<2,3>: step size 2 < shared batch", true, &[1, 2], 2, s - 1, 2, 0, &cl_nr);
     absorb_env(&mut out, &c, 2, 3, run_env::<2, 3>(&c), "market-env", true);
+    // ... and so many more that the clock has to be moved BACK onto the step boundary when the step ends
+    let c = ecfg("MarketEnv<2,3>: step size 1, shared batches of up to 3 (the closing clock jump goes backwards)", true, &[1, 2], 1, 3, 2, 0, &cl_nr);
+    absorb_env(&mut out, &c, 2, 3, run_env::<2, 3>(&c), "market-env", true);
     let c = ecfg("MarketEnv<1,3>: one asset", true, &[3], 100, s - 1, 2, 1, &cl);
     absorb_env(&mut out, &c, 1, 3, run_env::<1, 3>(&c), "market-env", true);
     let mut c = ecfg("MarketEnv<4,3>: four assets", true, &[1, 2, 3, 5], 100, 3, 2, 0, &cl);
@@ -398,6 +401,15 @@ pub fn c12_env_part(out: &mut Outcome, t: bool) {
     let mut c = ecfg("MarketEnv<2,3> ticks 3,5: off-grid submissions and modifies", true, &[3, 5], 100, s, 2, 0, &cl);
     c.alpha.badnew = true;
     c.alpha.offgrid_modify = true;
+    c.alpha.modify = false;
+    absorb_env(out, &c, 2, 3, run_env::<2, 3>(&c), "market-env", false);
+    // "market orders always can": also while trading is disabled (at construction, or switched off later)
+    let mut c = ecfg("Env<3> tick 2: trading off at construction, toggles, market and off-grid submissions", false, &[2], 100, s, 2, 1, &cl);
+    c.alpha.badnew = true;
+    c.start_trading = false;
+    absorb_env(out, &c, 1, 3, run_env::<1, 3>(&c), "env", false);
+    let mut c = ecfg("MarketEnv<2,3> ticks 2,5: toggles, market and off-grid submissions", true, &[2, 5], 100, 3, 2, 1, &cl);
+    c.alpha.badnew = true;
     c.alpha.modify = false;
     absorb_env(out, &c, 2, 3, run_env::<2, 3>(&c), "market-env", false);
     // the two ends of the price axis are grid prices: an asset whose only quotes sit there
